@@ -32,7 +32,7 @@ func init() {
 			{"INDEX-GUARD", func(c *eng.Ctx) { ruleIndexGuard(c, "INDEX-GUARD", []string{"internal/planner"}, 5) }},
 		},
 		Meta: eng.PropMeta{
-			Explanation: "Decides four structural clauses of the query semantics: (SORT-TABLE) the decision table of valuesNode.docValueLess over sign(compare) x direction is 'ASC: <0 true, >0 false, =0 next key; DESC mirrored; after the last key false' (6 cells, exhaustive); (COMPARE-TABLES) each base.compareX helper realises an antisymmetric three-way comparison on the 3 orderings of its operands; (PANIC-ACCESSOR) in dagScanNode every panicking mapping accessor (SetFirstOfName/FirstOfName/FirstIndexOfName/IndexesByName[k][0]) is used with a name the mapper registers unconditionally for that mapping, or is guarded by a presence test; (LIMIT-TABLE) limitNode.Next's stop test is 'limit!=0 && rowIndex >= limit+offset' and its skip test 'rowIndex > offset' as linear forms. (INDEX-GUARD) every constant index into a slice in the planner is dominated by a length test (also through a single-definition bool local), a range over the slice or a construction of sufficient size, or is a tabled shape invariant; (CONNOR-TABLE) every numeric comparison returned by connor.gt/ge/lt/le is `data OP condition` with the operator's own OP for all four int/float pairings, and mixed pairs are only widened to float64; (MINMAX-TABLE) every selection site `X.Cmp(Y) op 0` of _max/_min keeps the greater/lesser operand (2 cells per site, 12 sites); (AGG-PIPELINE) on every consistent path the enumerable stages of inline-array aggregates follow filter → order → offset → limit; (AGG-SIBLING-CASES) _max and _min understand the same value representations; (ORDER-DIRECTION-CARRIED) every keyed OrderCondition literal sets Direction. (ARRAY-KIND-COVERAGE) _sum/_max/_min handle all six numeric array representations, _count's filter/limit path and connor's _any/_all/_none all ten, and eq unwraps every nillable element kind — the table is aligned with the client package's FieldKind_*_ARRAY constants; (AGG-FILTER-GATE) every aggregate node yields a row only after mapper.RunFilter(row, aggregateFilter); (FILTER-KEY-NOT-A-FIELD) where the mapper turns a filter key into a selection it has excluded the map-valued operator _not.",
+			Explanation: "Decides four structural clauses of the query semantics: (SORT-TABLE) the decision table of valuesNode.docValueLess over sign(compare) x direction is 'ASC: <0 true, >0 false, =0 next key; DESC mirrored; after the last key false' (6 cells, exhaustive); (COMPARE-TABLES) each base.compareX helper realises an antisymmetric three-way comparison on the 3 orderings of its operands; (PANIC-ACCESSOR) in dagScanNode every panicking mapping accessor (SetFirstOfName/FirstOfName/FirstIndexOfName/IndexesByName[k][0]) is used with a name the mapper registers unconditionally for that mapping, or is guarded by a presence test; (LIMIT-TABLE) limitNode.Next's stop test is 'limit!=0 && rowIndex >= limit+offset' and its skip test 'rowIndex > offset' as linear forms. (INDEX-GUARD) every constant index into a slice in the planner is dominated by a length test (also through a single-definition bool local), a range over the slice or a construction of sufficient size, or is a tabled shape invariant; (CONNOR-TABLE) every numeric comparison returned by connor.gt/ge/lt/le is `data OP condition` with the operator's own OP for all four int/float pairings, and mixed pairs are only widened to float64; (MINMAX-TABLE) every selection site `X.Cmp(Y) op 0` of _max/_min keeps the greater/lesser operand (2 cells per site, 12 sites); (AGG-PIPELINE) on every consistent path the enumerable stages of inline-array aggregates follow filter → order → offset → limit; (AGG-SIBLING-CASES) _max and _min understand the same value representations; (ORDER-DIRECTION-CARRIED) every keyed OrderCondition literal sets Direction. (ARRAY-KIND-COVERAGE) _sum/_max/_min handle all six numeric array representations, _count's filter/limit path and connor's _any/_all/_none all ten, and eq unwraps every nillable element kind — the table is aligned with the client package's FieldKind_*_ARRAY constants; (AGG-FILTER-GATE) every aggregate node yields a row only after mapper.RunFilter(row, aggregateFilter); (FILTER-KEY-NOT-A-FIELD) where the mapper turns a filter key into a selection it has excluded the map-valued operator _not. (AVG-NOT-NIL) the map that receives the {_ne: null} clause of an _avg target is, or is stored into, the target's own filter on every path; (AGG-KIND-PER-SOURCE) _max/_min resolve float-vs-integer rendering for the winning source on every iteration, from the loop's source.",
 			NotDecided:  "filter evaluation beyond the ordering operators' tables (connor eq/in/like, nil handling), aggregate arithmetic beyond selection direction and stage order, grouping, parser totality, absence of hangs, equality of results with the documented semantics over data",
 		},
 	})
